@@ -498,7 +498,9 @@ func main() {
 			if pre != "/welcome" || r.Intn(3) == 0 {
 				wire = randWire(r, pre)
 			}
-			q, ok := mkReq(host, wire, queries[r.Intn(len(queries))], "", false)
+			// direct requests (plain and TLS) and requests behind a proxy whose header agrees or
+			// disagrees with the connection
+			q, ok := mkReq(host, wire, queries[r.Intn(len(queries))], []string{"", "", "http", "https"}[r.Intn(4)], r.Intn(3) == 0)
 			if !ok {
 				run.Exclude("request line does not parse")
 				continue
@@ -521,7 +523,7 @@ func main() {
 			}
 			_, hasLoc := w.Header()["Location"]
 			resp, ok := coqResp(w.Code, w.Header().Get("Location"), hasLoc, hits, up, panicked, pval)
-			step := map[string]interface{}{"host": q.host, "request": uri(q.wire, q.query), "status": w.Code, "location": w.Header().Get("Location"), "upstream_hits": hits}
+			step := map[string]interface{}{"host": q.host, "request": uri(q.wire, q.query), "x-forwarded-proto": q.xfp, "tls": q.tls, "status": w.Code, "location": w.Header().Get("Location"), "upstream_hits": hits}
 			hist = append(hist, step)
 			if !ok {
 				run.Violation(run.NextID(), fmt.Sprintf("ServeHTTP in a request history ended in an unclassifiable way (status %d, panic %v)", w.Code, pval),
@@ -579,8 +581,14 @@ func main() {
 		if i%6 == 5 {
 			tmpl = "https://bar.com/static" // both requests get the same Location
 		}
-		qa, ok1 := mkReq("a.foo.com", "/from-A"+randWire(r, ""), "", "", false)
-		qb, ok2 := mkReq([]string{"a.foo.com", "b.foo.com"}[r.Intn(2)], "/from-B"+randWire(r, ""), queries[r.Intn(len(queries))], "", false)
+		// the requests announce the other scheme than the template's, so that the redirect is not
+		// one back to the request itself (that one is skipped: the serve classes cover it)
+		other := "https"
+		if strings.HasPrefix(tmpl, "https") {
+			other = "http"
+		}
+		qa, ok1 := mkReq("a.foo.com", "/from-A"+randWire(r, ""), "", other, false)
+		qb, ok2 := mkReq([]string{"a.foo.com", "b.foo.com"}[r.Intn(2)], "/from-B"+randWire(r, ""), queries[r.Intn(len(queries))], other, false)
 		if !ok1 || !ok2 {
 			run.Exclude("request line does not parse")
 			continue
@@ -632,8 +640,14 @@ func main() {
 			run.Violation(run.NextID(), "forced schedule could not be established (Lookup did not return)", tmpl)
 			continue
 		}
-		la, _ := coqResp(rec["A"].Code, rec["A"].Header().Get("Location"), true, 0, -1, false, nil)
-		lb, _ := coqResp(rec["B"].Code, rec["B"].Header().Get("Location"), true, 0, -1, false, nil)
+		_, hasLocA := rec["A"].Header()["Location"]
+		_, hasLocB := rec["B"].Header()["Location"]
+		la, okA2 := coqResp(rec["A"].Code, rec["A"].Header().Get("Location"), hasLocA, 0, -1, false, nil)
+		lb, okB2 := coqResp(rec["B"].Code, rec["B"].Header().Get("Location"), hasLocB, 0, -1, false, nil)
+		if !okA2 || !okB2 {
+			run.Violation(run.NextID(), fmt.Sprintf("forced schedule: a response is neither a redirect nor 'no route' (status %d / %d)", rec["A"].Code, rec["B"].Code), tmpl)
+			continue
+		}
 		if tr.n != 0 {
 			run.Violation(run.NextID(), "redirect route contacted the upstream under the forced schedule", tmpl)
 		}
